@@ -158,7 +158,35 @@ def check_latent_updates(P, R):
             R.check(ok, "DEP.latent", f.key, f"new factor depends on {need}", why, f"the updated factor does not depend on {need} ({why})")
 
 
+KERNELS = [
+    "_compute_fn_x_ih", "_compute_fn_z_i", "_compute_fn_y_i", "_compute_fn_x", "_compute_id_plus_u_prod_ih", "_compute_id_plus_d_prod_i",
+    "_compute_id_plus_vprod_i", "_compute_id_plus_us_prod_inv", "_compute_latent_x_per_class", "_latent_y_per_class", "compute_latent_x",
+    "_compute_uprod", "_compute_vprod", "estimate_x", "_get_statistics_by_class_id", "_sum_n_statistics", "_sum_f_statistics",
+    "compute_accumulators_U", "compute_accumulators_V", "compute_accumulators_D", "initialize_XYZ",
+]
+OUTPUT_PARAMS = {"update_z": "latent_z", "update_y": "latent_y"}
+
+
+def check_kernels_pure(P, R):
+    """The kernels are called once per pass on the same accumulated statistics: they must not modify their inputs
+    (update_z / update_y fill their own block's output parameter by design)."""
+    from ..engines import own as owneng
+
+    own = owneng.Own(P, modules=None)
+    for name in KERNELS:
+        f = P.func(FA + name)
+        s = own.sums[f.key]
+        bad = {o: w for o, w in s.mutates.items()}
+        R.check(not bad, "PURE.kernel", f.key, "no in-place modification of an argument or of the machine", "pure", "; ".join(f"{owneng.fmt_org(o)}: {w}" for o, w in list(bad.items())[:2]) + " - the statistics/factors handed to the kernel are corrupted for the next pass")
+    for name, outp in OUTPUT_PARAMS.items():
+        f = P.func(FA + name)
+        s = own.sums[f.key]
+        bad = {o: w for o, w in s.mutates.items() if not (o[1] == outp)}
+        R.check(not bad, "PURE.kernel", f.key, f"only the output parameter {outp} is written", "", "; ".join(f"{owneng.fmt_org(o)}: {w}" for o, w in list(bad.items())[:2]))
+
+
 def run(P, R, tier):
+    check_kernels_pure(P, R)
     check_residuals(P, R)
     check_precisions(P, R)
     check_latent_updates(P, R)
